@@ -524,34 +524,21 @@ func workerC07(t *testing.T, out *WorkerOut) {
 		}
 	}
 	out.Extra = map[string]any{"c07_enumeration": fmt.Sprintf("every cut offset 0..len, clean and abrupt ending, of %d corpus replies x 3 stream kinds = %d cases, enumerated completely across the workers", len(corpus), total), "c07_enumerated_cases_this_worker": enumerated, "exhaustive_part": true}
-	// allocation metering for over-limit prefaces (only worker 0: it is deterministic)
+	// allocation metering for over-limit prefaces (only worker 0: it is
+	// deterministic): the client-side decoder through the canned RoundTripper,
+	// the server-side decoder through the raw peer
 	if widx == 0 {
-		for _, a := range adversarial {
+		for i, a := range adversarial {
 			c := &Canned{Raw: RawStr(a.body), RawNote: a.note}
-			prog := cannedProgram(int64(900_000_000), KServerStream, c, nil)
-			var m0, m1 runtime.MemStats
-			runtime.GC()
-			runtime.ReadMemStats(&m0)
+			prog := cannedProgram(int64(900_000_000+i), KServerStream, c, nil)
+			prog.Cfg.MeterAlloc = true
 			res := RunOne(t, prog, NewSearchTape(1), false)
-			runtime.ReadMemStats(&m1)
-			delta := m1.TotalAlloc - m0.TotalAlloc
-			out.Probes["c07-alloc-metered"]++
-			announced := int64(0)
-			if len(a.body) >= 4 {
-				announced = int64(int32(binary.BigEndian.Uint32(a.body[:4])))
-				if announced < 0 {
-					announced = -announced
-				}
-			}
-			limit := uint64(100*1024*1024 + 16*1024*1024)
-			if announced > 100*1024*1024 {
-				limit = 16 * 1024 * 1024 // over the per-message limit: must be refused before allocating
-			}
-			if delta > limit {
-				res.Viols = append(res.Viols, Violation{Prop: "C07", Sig: "C07|http|alloc-on-unverified-preface|" + strings.ReplaceAll(a.note, " ", "-"), RPC: 0,
-					Text: fmt.Sprintf("adversarial body (%s, %d bytes present, preface announces %d): decoding allocated %d bytes", a.note, len(a.body), announced, delta)})
-			}
 			record(res, prog.Seed)
+			runtime.GC()
+			sp := serverAllocProgram(int64(910_000_000+i), a.body, a.note)
+			res = RunOne(t, sp, NewSearchTape(1), false)
+			record(res, sp.Seed)
+			runtime.GC()
 		}
 	}
 	// seeded random cases for the rest of the budget
@@ -576,3 +563,17 @@ func workerC07(t *testing.T, out *WorkerOut) {
 }
 
 var c07shapes = map[string]bool{}
+
+
+// serverAllocProgram: a raw peer posts an adversarial body to a
+// client-streaming method; the handler receives until it is told to stop.
+func serverAllocProgram(seed int64, body []byte, note string) *Program {
+	p := &Program{Profile: "c07", Seed: seed}
+	p.Cfg.NetEager = true
+	p.Cfg.MeterAlloc = true
+	r := &RPC{ID: 0, Transport: THTTP, Kind: KClientStream, Svc: "sim.S", Meth: "M0", Call: "/sim.S/M0", RawClient: true, StopOnErr: true}
+	r.Client = []Op{{K: "raw", Raw: &RawReq{Method: "POST", Path: r.Call, Hdrs: []KV{{K: "Content-Type", V: RawStr(httpgrpc.StreamRpcContentType_V1)}}, Body: RawStr(body), Note: note}}}
+	r.Handler = []Op{{K: "recvall"}, {K: "send", Msg: &MsgSpec{Tag: 2, Size: 3}}, {K: "return"}}
+	p.RPCs = []*RPC{r}
+	return p
+}
